@@ -811,6 +811,23 @@ func checkNegotiationGate(r *Report, s *Sem, rule string) {
 	}
 	pairOK := fieldOf(C.Call.Args[len(C.Call.Args)-2], ses, "Compression") && fieldOf(C.Call.Args[len(C.Call.Args)-1], ses, "Encryption")
 	r.Check(rule, base+" / confirms the looked-up pair itself", p.instrPos(C), pairOK, "the values confirmed and applied must be the ones that were looked up in the offer")
+	r.Check(rule, base+" / confirmation only for an answer in state negotiating", p.instrPos(C), peerStateGuard(C.Block(), ses, "negotiating"),
+		"an answer to the options in any other state is out of order and must be refused with a failed session, not confirmed")
+}
+
+// peerStateGuard: b is reached only through the edge `ses.State == want` of the peer envelope ses.
+func peerStateGuard(b *ssa.BasicBlock, ses ssa.Value, want string) bool {
+	return condGuard(b, func(cd Cond) bool {
+		if cd.Op != token.EQL {
+			return false
+		}
+		x, y := cd.X, cd.Y
+		if _, isC := stripConv(x).(*ssa.Const); isC {
+			x, y = y, x
+		}
+		cs, ok := constString(stripConv(y))
+		return ok && cs == want && fieldOf(x, ses, "State")
+	})
 }
 
 // checkSchemeGate: the authentication callback runs only for a scheme looked up in the offered scheme set.
@@ -830,6 +847,8 @@ func checkSchemeGate(r *Report, s *Sem, rule string) {
 	ok := ses != nil && offeredSetLookupGuard(A.Block(), fn, ses, "Scheme")
 	r.Check(rule, "func "+fnName(fn)+" / credentials evaluated only for an offered scheme", p.instrPos(A), ok,
 		"on every path (every round trip) the callback must sit on the ok edge of a lookup of the peer's scheme in the offered set")
+	r.Check(rule, "func "+fnName(fn)+" / credentials evaluated only for an envelope in state authenticating", p.instrPos(A), ses != nil && peerStateGuard(A.Block(), ses, "authenticating"),
+		"an envelope in any other state at this point is out of order and must be refused with a failed session")
 }
 
 // ---------------------------------------------------------------------------------------------
